@@ -64,7 +64,7 @@ Lemma prefix_keeps_entries : forall s p o n id ks,
   lookup (apply_calls s (firstn n (fst (plan Fixed s p o)))) id = Some ks.
 Proof.
   intros s p o n id ks Hn L.
-  destruct o as [kt|kt|kt u k|rid|gid|eid|uri|inst]; cbn [plan] in *.
+  destruct o as [kt|kt|kt u k|rid|gid|eid|bkt bu bk|uri|inst]; cbn [plan] in *.
   - destruct (negb (kt_creatable kt)); [cbn in Hn; lia|].
     destruct (lookup s (new_id kt p p)) eqn:E; cbn [fst List.length] in Hn;
       destruct n as [|[|n]]; try lia; cbn; exact L.
@@ -84,6 +84,7 @@ Proof.
       try exact L; apply put_absent_keeps; assumption.
   - cbn [fst List.length] in Hn. destruct n; [exact L|lia].
   - cbn [fst List.length] in Hn. destruct n; [exact L|lia].
+  - unfold Fixed in Hn; cbn [v_import_checks] in Hn. destruct (negb (kt_importable bkt)); cbn in Hn; lia.
   - cbn in Hn. lia.
   - cbn in Hn. lia.
 Qed.
@@ -158,7 +159,7 @@ Qed.
 
 (* full plan, Fixed: an entry changes only by a completed rotation of that very id, which moves its keys (all of
    them, in order, plus the new primary) under the returned id *)
-Ltac sc := unfold apply_calls, Fixed, AsIs; cbn [fold_left apply_call fst snd v_rot v_import_thumb].
+Ltac sc := unfold apply_calls, Fixed, AsIs; cbn [fold_left apply_call fst snd v_rot v_import_thumb v_import_checks].
 
 Lemma full_plan_entry : forall s p o id ks,
   lookup s id = Some ks ->
@@ -170,7 +171,7 @@ Lemma full_plan_entry : forall s p o id ks,
      lookup (apply_calls s (fst (plan Fixed s p o))) id = None).
 Proof.
   intros s p o id ks L.
-  destruct o as [kt|kt|kt u k|rid|gid|eid|uri|inst]; cbn [plan].
+  destruct o as [kt|kt|kt u k|rid|gid|eid|bkt bu bk|uri|inst]; cbn [plan].
   - left. destruct (negb (kt_creatable kt)); [exact L|].
     destruct (lookup s (new_id kt p p)) eqn:E; sc; [exact L|]. apply put_absent_keeps; assumption.
   - left. destruct (negb (kt_creatable kt)); [exact L|].
@@ -193,6 +194,7 @@ Proof.
       rewrite lookup_remove_other by exact EQ. apply put_absent_keeps; assumption.
   - left. sc. exact L.
   - left. sc. exact L.
+  - left. sc. destruct (negb (kt_importable bkt)); sc; exact L.
   - left. sc. exact L.
   - left. sc. exact L.
 Qed.
@@ -268,7 +270,7 @@ Proof.
   - rewrite O in H. destruct H; discriminate.
   - rewrite C. rewrite O in H. clear C O.
     set (s := st_store st) in *. set (p := st_pos st) in *.
-    destruct o as [kt|kt|kt u k0|rid|gid|eid|uri|inst]; cbn [plan] in *.
+    destruct o as [kt|kt|kt u k0|rid|gid|eid|bkt bu bk|uri|inst]; cbn [plan] in *.
     + destruct (negb (kt_creatable kt)); [destruct H; discriminate|].
       destruct (lookup s (new_id kt p p)) eqn:E; sca; [destruct H; discriminate|].
       destruct H as [H|H]; inversion H; subst.
@@ -305,6 +307,13 @@ Proof.
     + destruct (lookup s eid) as [ks|]; [|destruct H; discriminate].
       destruct (kt_random_id (ks_kt ks) || negb (kt_exportable (ks_kt ks))); [destruct H; discriminate|].
       destruct (primary ks); destruct H; discriminate.
+    + destruct (negb (kt_importable bkt)); [destruct H; discriminate|].
+      destruct (v_import_checks v); [destruct H; discriminate|].
+      match type of H with context [lookup s ?i] => destruct (lookup s i) eqn:E end; sca;
+        [destruct H; discriminate|].
+      destruct H as [H|H]; inversion H; subst.
+      eexists. split; [apply lookup_put_same|]. split; [reflexivity|].
+      intros k' [<-|[]]. left; reflexivity.
     + destruct H; discriminate.
     + destruct H; discriminate.
 Qed.
@@ -336,7 +345,7 @@ Fixpoint puts_fresh (s : store) (cs : list scall) : Prop :=
 Lemma plan_puts_fresh : forall v s p o, puts_fresh s (fst (plan v s p o)).
 Proof.
   intros v s p o.
-  destruct o as [kt|kt|kt u k|rid|gid|eid|uri|inst]; cbn [plan].
+  destruct o as [kt|kt|kt u k|rid|gid|eid|bkt bu bk|uri|inst]; cbn [plan].
   - destruct (negb (kt_creatable kt)); [exact I|].
     destruct (lookup s (new_id kt p p)) eqn:E; cbn; auto.
   - destruct (negb (kt_creatable kt)); [exact I|].
@@ -350,6 +359,8 @@ Proof.
     + destruct (lookup s (new_id (ks_kt oks) p p)) eqn:E2; cbn; auto.
   - cbn; auto.
   - cbn; auto.
+  - destruct (negb (kt_importable bkt)); [exact I|]. destruct (v_import_checks v); [exact I|].
+    match goal with |- context [lookup s ?i] => destruct (lookup s i) eqn:E end; cbn; auto.
   - exact I.
   - exact I.
 Qed.
@@ -480,7 +491,7 @@ Proof. unfold new_id. destruct (kt_random_id kt); intro H; inversion H; reflexiv
 Lemma plan_calls_wf : forall v s p o, calls_wf (fst (plan v s p o)).
 Proof.
   intros v s p o.
-  destruct o as [kt|kt|kt u k|rid|gid|eid|uri|inst]; cbn [plan].
+  destruct o as [kt|kt|kt u k|rid|gid|eid|bkt bu bk|uri|inst]; cbn [plan].
   - destruct (negb (kt_creatable kt)); [exact I|].
     destruct (lookup s (new_id kt p p)); cbn [calls_wf fst]; auto.
     split; auto. intros k E. apply new_id_thumb in E. subst. reflexivity.
@@ -500,6 +511,9 @@ Proof.
       split; auto. intros k E. apply new_id_thumb in E. subst. apply primary_snoc.
   - cbn [calls_wf fst]; auto.
   - cbn [calls_wf fst]; auto.
+  - destruct (negb (kt_importable bkt)); [exact I|]. destruct (v_import_checks v); [exact I|].
+    match goal with |- context [lookup s ?i] => destruct (lookup s i) eqn:E end; cbn [calls_wf fst]; auto.
+    split; auto. intros k' E'. destruct bu; discriminate.
   - exact I.
   - exact I.
 Qed.
@@ -636,4 +650,14 @@ Lemma export_iff_exportable : forall v st id ks k,
 Proof.
   intros v st id ks k L P. unfold step, step_calls. cbn [plan]. rewrite L, P. cbn [snd].
   unfold model_exportable. destruct (kt_random_id (ks_kt ks)), (kt_exportable (ks_kt ks)); reflexivity.
+Qed.
+
+(* ---------- an EC private key that is not on the key type's curve is refused before any store call ---------- *)
+Lemma bad_import_refused : forall st kt u k c,
+  st_store (fst (step Fixed st (KImportBad kt u k, c))) = st_store st /\
+  snd (step Fixed st (KImportBad kt u k, c)) = OErr /\
+  fst (snd (step_calls Fixed st (KImportBad kt u k, c))) = [].
+Proof.
+  intros st kt u k c. unfold step, step_calls. cbn [plan]. unfold Fixed; cbn [v_import_checks].
+  destruct (negb (kt_importable kt)); destruct c as [[n|n]|]; cbn; repeat split; reflexivity.
 Qed.
